@@ -62,6 +62,9 @@ def gen_set(rng):
             items.append(("dash",))
         else:
             items.append(("caret",))
+    if rng.random() < 0.15:
+        # a set that starts with a range and ends with a literal dash: [a-c-]
+        items = [("range",) + rng.choice([("a", "c"), ("0", "9"), ("A", "Z")])] + items[:1] + [("dash",)]
     return ("set", neg, tuple(items))
 
 
